@@ -95,6 +95,9 @@ NUMBER_METHODS = {"limit_denominator", "is_integer", "as_integer_ratio", "conjug
 class Ev:
     """evaluation of a pure fragment over representatives; `hook(ev, call)` may supply the value of a call
     (return NotImplemented to fall through); `attr_hook(ev, node)` the value of attribute reads."""
+    # int / int: most abstract worlds feed ints where the library would meet Fractions and want the exact quotient;
+    # a rule whose inputs are the ints the library itself passes (node counts) asks for Python's own float quotient
+    INT_DIV_IS_FLOAT = False
 
     def __init__(self, env, hook=None, attr_hook=None, asserts=False, store_hook=None):
         self.store_hook = store_hook
@@ -424,6 +427,8 @@ class Ev:
         if isinstance(op, ast.Mult):
             return l * r
         if isinstance(op, ast.Div):
+            if Ev.INT_DIV_IS_FLOAT and isinstance(l, int) and isinstance(r, int) and not isinstance(l, bool):
+                return l / r                 # as Python does it: the quotient of two ints is a float
             return Fr(l) / r if isinstance(l, (int, Fr)) and isinstance(r, (int, Fr)) else l / r
         if isinstance(op, ast.Mod):
             return l % r
